@@ -11,7 +11,7 @@ LEVEL_NOTE = [
     "A2: `re` semantics of the four numeric patterns (hand-specialised matchers in the model)",
 ]
 PARTIAL = [
-    "C11.float_valid (decimal floating constants of every shape), char_valid / char_escape_valid / string_valid are proved (plain characters, simple escapes, opaque string bodies, every encoding prefix); hexadecimal floats, octal/hex escapes, string bodies with escapes and the per-family C11_F_reported theorems are not proved yet: they are decided per input by the correspondence and by the independent recogniser below; closed witnesses of each malformed family are proved by kernel evaluation in Properties/C11.lean",
+    "C11.float_valid (decimal floating constants of every shape), char_valid / char_escape_valid / char_octal_valid / char_hex_valid (plain characters; simple, octal and hexadecimal escapes with any number of digits; every encoding prefix) and string_valid (opaque bodies) are proved; hexadecimal floats, string bodies with escapes and the per-family C11_F_reported theorems are not proved yet: they are decided per input by the correspondence and by the independent recogniser below; closed witnesses of each malformed family are proved by kernel evaluation in Properties/C11.lean",
 ]
 
 ISUF = ["", "u", "U", "l", "L", "ll", "LL", "z", "Z", "wb", "WB", "i64", "I64", "ul", "uL", "Ul", "UL", "lu", "lU", "Lu", "LU",
@@ -70,7 +70,7 @@ def valid_floats(rng, maxlen, per):
 
 def valid_chars():
     out = []
-    bodies = ["a", "Z", "0", " ", "#", "\"", "?"] + SIMPLE_ESC + ["\\0", "\\7", "\\12", "\\177", "\\x0", "\\xA", "\\x41", "\\xfF"]
+    bodies = ["a", "Z", "0", " ", "#", "\"", "?"] + SIMPLE_ESC + ["\\0", "\\7", "\\12", "\\177", "\\x0", "\\xA", "\\x41", "\\xfF", "\\x041", "\\x0041", "\\x00000041"]
     for p in PREFIXES:
         for b in bodies:
             out.append(p + "'" + b + "'")
@@ -100,6 +100,8 @@ def malformed(rng):
         fam.append((s, "INVALID_SUFFIX"))
     for s in ["0x1e+3", "0xE-1", "0x1E+a"]:
         fam.append((s, "MAXIMAL_MUNCH"))
+    for s in ["0x1p", "0x1.8p+", "0X.8P-", "0x1pp3", "0x1.pf"]:
+        fam.append((s, "BAD_EXPONENT"))
     for s in ["1e", "1e+", "1E-", "12e+;", "1ee5"]:
         fam.append((s.rstrip(";"), "BAD_EXPONENT"))
     for s in ["1.2.3", "1..2", ".1.2", "1.2.3.4"]:
